@@ -359,12 +359,12 @@ func (fv *FV) applyContract(st *State, spec *FuncSpec, fn *ssa.Function, c *ssa.
 	for _, e := range errs {
 		fv.outsidef("contract error at call of %s: %s", spec.Key, e)
 	}
-	fv.bindGhosts(st, lastPart(spec.Key))
+	fv.bindGhosts(st, lastPart(spec.Key), res)
 	return res
 }
 
 // bindGhosts: ghost NAME = EXPR after CALLEE
-func (fv *FV) bindGhosts(st *State, callee string) {
+func (fv *FV) bindGhosts(st *State, callee string, res []Term) {
 	if fv.spec == nil || st.frame == nil || st.frame.ID != 0 {
 		return
 	}
@@ -375,12 +375,27 @@ func (fv *FV) bindGhosts(st *State, callee string) {
 		var errs []string
 		env := fv.stateEnv(st, &errs)
 		env.cells = fv.cellLookup(st)
+		if len(res) > 0 {
+			env.vars["callresult"] = res[0]
+		}
+		if len(res) > 1 {
+			env.vars["callresult1"] = res[1]
+		}
 		t := fv.def(st, "ghost_"+g.Name, env.Eval(g.Clause.E))
 		if st.ghosts == nil {
 			st.ghosts = map[string]Term{}
 		}
-		if _, done := st.ghosts[g.Name]; !done {
+		if st.ghostBound == nil {
+			st.ghostBound = map[string]bool{}
+		}
+		if !st.ghostBound[g.Name] {
 			st.ghosts[g.Name] = t
+			nb := make(map[string]bool, len(st.ghostBound)+1)
+			for k, v := range st.ghostBound {
+				nb[k] = v
+			}
+			nb[g.Name] = true
+			st.ghostBound = nb
 		}
 		fv.reportErrs(errs)
 	}
